@@ -126,6 +126,23 @@ CLAIMS = {
               "update). Two defects found by this check were repaired in /repo (SARSA absorbing initial state; policy at "
               "unvisited states)."),
         ref='DESIGN.md section 4 C10'),
+    'C20': dict(
+        text=("For EVERY layout over the plain grid world's alphabet with a start cell up to 4 cells (quick; 6 in thorough, plus a "
+              "menu of larger layouts: goal column cutting the grid, walled-in start, one-row/one-column grids) the real parser "
+              "and GridWorld methods are executed with the agent position and action as symbolic integers and success "
+              "probability, step cost and feature rewards as symbolic reals; z3 proves the statement's clauses verbatim "
+              "(normalised, successors in the state list, at most one cell and only as commanded, never into a wall or off the "
+              "grid, success with exactly the configured probability incl. 0 and 1, reward = step cost + entered feature as a "
+              "term, absorbing feature -> zero-reward terminal state). Windy grid world: every layout up to 3 cells (4 in "
+              "thorough) + menu, symbolic wind probability / costs / rewards; cliff walking, tiger (symbolic coherence), "
+              "load-unload (2..5 states), heaven-or-hell (symbolic coherence and rewards, 5 grids): every transition, initial and "
+              "observation distribution normalised, successors in the state list, finite rewards, >= 1 action, arrays build with "
+              "normalised rows and 3 sweeps of value iteration run."),
+        note=("layouts are enumerated exhaustively inside the bound (one case per layout) - that part is enumeration driven "
+              "through the harness, the solver's share is position/action/parameters; layouts without a start cell are excluded; "
+              "planning on the arrays uses probabilities from {0,1/2,1}. Two defects found by this check were repaired in /repo "
+              "(WindyGridWorld default feature_rewards=None; goal that cuts the grid)."),
+        ref='DESIGN.md section 4 C20'),
     'C11': dict(
         text=("For every support size within the bound and every distribution kind, the probability-calculus laws are "
               "proved for ALL probability/weight/score values at once (symbolic reals, zero entries included), by running "
